@@ -253,6 +253,57 @@ def rule3(P, rep):
                    ('is dominated by a range test' if ok else 'with no dominating range test of that count'),
                    extra={'entry': f.name})
             n += 1
+        # interprocedural: a fixed-extent configuration array and a caller-controlled count handed to a callee that subscripts the
+        # array parameter with a counter bounded only by the count parameter
+        for ev, name in f.calls():
+            if not name:
+                continue
+            args = ev['e'][2]
+            for g in P.resolve(name, f):
+                if g.nocfg or g.lib != 'Encoder':
+                    continue
+                pidx = {pn: i for i, (pn, pt) in enumerate(g.params)}
+                for ix in g.events(('ix',)):
+                    base, idx = strip(ix['e']), strip(ix['i'])
+                    if not (base and base[0] == 'v' and base[1] in pidx and idx and idx[0] == 'v' and idx[2] == 'l'):
+                        continue
+                    cnt_param, lit = None, False
+                    for kind, cond, line in g.ctl_chain(ix):
+                        if kind in ('for', 'while', 'do') and cond is not None:
+                            for c in _conjuncts(cond):
+                                if c and c[0] == 'b' and c[1] in ('<', '<=') and strip(c[2]) == idx:
+                                    r = strip(c[3])
+                                    if r[0] == 'l':
+                                        lit = True
+                                    elif r[0] == 'v' and r[1] in pidx:
+                                        cnt_param = r[1]
+                    if cnt_param is None:
+                        continue
+                    ai, ci = pidx[base[1]], pidx[cnt_param]
+                    if ai >= len(args) or ci >= len(args):
+                        continue
+                    afld = last_field(strip(args[ai]))
+                    cfl = [x for x in fields_in(args[ci]) if x.startswith(cfgrec)]
+                    if not afld or not cfl:
+                        continue
+                    rec, fn_ = afld.split('.', 1)
+                    dims = None
+                    for fd in (P.records.get(rec) or {}).get('fields', ()):
+                        if fd['n'] == fn_:
+                            dims = fd.get('dims')
+                    if not dims:
+                        continue
+                    key = '%s/%s(%s,count~%s)' % (f.name, name, fn_, cfl[0].split('.', 1)[1])
+                    if any(o['key'] == key for o in rep.obs):
+                        break
+                    ok = lit or _guarded(f, ev, cfl[0])
+                    rep.ob('C14.3-BOUND', key, ok, f.loc(ev),
+                           ('%s walks %s (extent %s) up to the caller-controlled %s ' % (name, afld, dims, cfl[0])) +
+                           (('and bounds the walk by a literal as well' if lit else 'and the call is dominated by a range test of that count') if ok else
+                            'and nothing stops the call when the count is out of range: the range test above only records an error and falls through, so the callee reads past the array'),
+                           extra={'entry': f.name})
+                    n += 1
+                    break
     return n
 
 
